@@ -97,6 +97,9 @@ Section Check.
   | WRaw (col cuid : str) (req resp : ppp) (g : dbdig) (pubs : list publish)     (* a mutated request, response not applied *)
   | WRawErr (col cuid : str) (req : ppp) (rpc : N) (g : dbdig)                   (* refused by ProcessPushPull itself *)
   | WSnapUpd (col : str) (d : ddoc) (g : dbdig)           (* UpdateSnapshot runs (again) with a datatype document captured earlier *)
+  (* two snapshot updates of one datatype whose executions overlapped (the first was answered late by the store): they run
+     one at a time (their lock), the first before the second *)
+  | WSnapUpd2 (col : str) (d1 d2 : ddoc) (g : dbdig)
   (* a round of requests that were served CONCURRENTLY, listed in the one-at-a-time order read off the stored log (by
      the log position each response reports); a refused request changed nothing and may stand anywhere from its listed
      place on; the store is compared after the round *)
@@ -198,6 +201,11 @@ Section Check.
     | WSnapUpd col d g =>
         let ss' := if N.eqb (dd_type d) k_type
                    then update_snapshot St k_init k_remote k_marshal k_unmarshal k_view (ws_db s) (ws_ss s) col d else ws_ss s in
+        if db_matches (ws_db s) g && ss_matches ss' g then Some (mkWsys (ws_db s) (ws_dts s) (ss_adopt ss' g)) else None
+    | WSnapUpd2 col d1 d2 g =>
+        let upd ss d := if N.eqb (dd_type d) k_type
+                        then update_snapshot St k_init k_remote k_marshal k_unmarshal k_view (ws_db s) ss col d else ss in
+        let ss' := upd (upd (ws_ss s) d1) d2 in
         if db_matches (ws_db s) g && ss_matches ss' g then Some (mkWsys (ws_db s) (ws_dts s) (ss_adopt ss' g)) else None
     | WRound _ _ => None
     | WRest _ _ => None
@@ -310,6 +318,7 @@ Arguments WApply {call}.
 Arguments WSyncRpc {call}.
 Arguments WRawErr {call}.
 Arguments WSnapUpd {call}.
+Arguments WSnapUpd2 {call}.
 Arguments WRound {call}.
 Arguments WRest {call}.
 Arguments WReset {call}.
